@@ -19,7 +19,10 @@ RULE = ("Hypothesis constructs template scripts with {name} parameters in positi
         "element), is_template iff non-empty, the instance has no parameters and no SymPy object, dropping one value raises "
         "ValueError. Non-trivial = >=2 parameters with one in a non-positional slot (keyword, scalar initialiser, array element, "
         "whole array, loop body). Distinct = SHA-1 of template text + values. Cases where the substituted script leaves the "
-        "arithmetic domain (division by zero, ...) or a parameter cancels identically are discarded and counted.")
+        "arithmetic domain (division by zero, ...) or a parameter cancels identically are discarded and counted."
+        " A quarter of the templates is array-heavy (whole-array parameters); before the instantiation proper the"
+        " template is instantiated with look-alike values (equal numbers of the other type 1/1.0; arrays moved by"
+        " 3e-9), which must not affect the result.")
 ASSUMPTIONS = ["values whose reference error bound exceeds 1e-11 relative are not compared (catastrophic cancellation)",
                "parameter names exclude Python keywords (the public API is template(**values))"]
 BUDGET = {"quick": (1600, 4), "thorough": (26000, 16)}
